@@ -19,6 +19,55 @@ fn feed<T: Hash>(t: &T) -> Vec<u8> {
     t.hash(&mut r);
     r.0
 }
+// the sequence of Hasher calls (std: equal values must make "exactly the same sequence of calls"):
+// "b<n>" = n consecutive write_u8 calls, "w<n>" = one write of n bytes, "o<n>" = another integer write
+struct Shape(Vec<(char, usize)>);
+impl Shape {
+    fn push(&mut self, k: char, n: usize) {
+        if k == 'b' {
+            if let Some(last) = self.0.last_mut() {
+                if last.0 == 'b' {
+                    last.1 += 1;
+                    return;
+                }
+            }
+            self.0.push(('b', 1));
+        } else {
+            self.0.push((k, n));
+        }
+    }
+}
+impl Hasher for Shape {
+    fn finish(&self) -> u64 {
+        0
+    }
+    fn write(&mut self, bytes: &[u8]) {
+        self.push('w', bytes.len());
+    }
+    fn write_u8(&mut self, _i: u8) {
+        self.push('b', 1);
+    }
+    fn write_u16(&mut self, _i: u16) {
+        self.push('o', 2);
+    }
+    fn write_u32(&mut self, _i: u32) {
+        self.push('o', 4);
+    }
+    fn write_u64(&mut self, _i: u64) {
+        self.push('o', 8);
+    }
+    fn write_usize(&mut self, _i: usize) {
+        self.push('o', 0);
+    }
+}
+fn shape<T: Hash>(t: &T) -> String {
+    let mut r = Shape(Vec::new());
+    t.hash(&mut r);
+    if r.0.is_empty() {
+        return "-".into();
+    }
+    r.0.iter().map(|(k, n)| format!("{}{}", k, n)).collect::<Vec<_>>().join(".")
+}
 fn ord(o: std::cmp::Ordering) -> &'static str {
     match o {
         std::cmp::Ordering::Less => "Lt",
@@ -69,6 +118,7 @@ pub fn op_textpair(ra: &[u8], rb: &[u8]) -> String {
             hex(&feed(hb)),
             hex(&feed(ib))
         ));
+        out.push(format!("HS={},{},{},{}", shape(ha), shape(ia), shape(hb), shape(ib)));
         // conversions preserve the text
         let c1: InlineName = ha.clone().into();
         let c2: Name = ia.clone().into();
